@@ -49,7 +49,10 @@ TRUSTED = [
     "environment input of the model: which own services were announced in which step (SRV with a real TTL in a "
     "response sent), read from the implementation's trace (model_input); probing and the registry are not modelled here",
 ]
-PARTIAL = ("Granularity is whole loop iterations: calls are issued while the daemon is between iterations and clients "
+PARTIAL = ("The real-thread part (stress_shutdown, stress_cleanup) is search support, not proof: many runs with real "
+           "client threads against a freely iterating daemon, with few and with 100-300 announced services (long "
+           "clean-up); a run with more than 2 stranded calls is reported as a violation, 1-2 as the known finding. "
+           "Granularity of the model is whole loop iterations: calls are issued while the daemon is between iterations and clients "
            "read their channels between iterations. Real-thread interleavings inside an iteration (a try_send between "
            "the daemon's last try_recv and the drop of the receiver; a client blocked in recv while another thread shuts "
            "down) are outside the model and are exercised only by the stress_shutdown runs (search support; they do "
@@ -176,13 +179,19 @@ def generate(rng, tier):
         cases += [Case(l, "exhaustive") for l in exhaustive("BRSUXbH", 5)]
     for _ in range(1500 if quick else 30000):
         cases.append(Case(rand_history(rng), "random"))
-    for i in range(40 if quick else 600):
+    for i in range(10 if quick else 200):
         cases.append(Case("stress_shutdown %d %d %d" % (rng.choice([2, 4, 8]), rng.choice([20, 40]), rng.randrange(1 << 30)), "stress"))
+    # long clean-up (many announced services), many callers that keep their reply receivers
+    for i in range(40 if quick else 600):
+        cfg = rng.choice(["200 8 100", "200 8 100", "100 8 150", "300 4 100"])
+        cases.append(Case("stress_cleanup %s %d" % (cfg, rng.randrange(1 << 30)), "stress-cleanup"))
     return cases
 
 
 def project(line, raw):
     if line.startswith("stress_shutdown") and raw.startswith("OK "):
+        return "OK"
+    if line.startswith("stress_cleanup") and raw.startswith("OK ") and raw.endswith(" stranded=0"):
         return "OK"
     return raw
 
@@ -244,9 +253,25 @@ def _overflows(line):
     return False
 
 
+# The known window (between the daemon's last try_recv and the drop of the receiver) is a few
+# instructions long and does not depend on the clean-up: measured on the unchanged tree over
+# 840 runs of `stress_cleanup 200 8 100` (8 callers): 836 runs with 0 stranded calls, 4 runs with
+# 1, none with more. A change that lets commands arrive during cleanup() strands 11..100 calls
+# per run in the same configurations. More than STRANDED_KNOWN_MAX stranded calls is therefore
+# not the known finding but a new violation.
+STRANDED_KNOWN_MAX = 2
+
+
 def known_class(line, impl, mon):
     if line.startswith("stress_shutdown") and impl.startswith("FAIL pending-forever"):
+        # this variant stops at the first stranded call: exactly one
         return "C14-command-stranded-after-final-drain"
+    if line.startswith("stress_cleanup") and " stranded=" in impl:
+        try:
+            k = int(impl.rsplit("stranded=", 1)[1])
+        except ValueError:
+            return None
+        return "C14-command-stranded-after-final-drain" if 1 <= k <= STRANDED_KNOWN_MAX else None
     if "dead=stuck" in impl and _overflows(line):
         return "C14-full-listener-blocks-daemon"
     return None
